@@ -100,7 +100,9 @@ def run_impl(case):
     axis = k["axes"] if len(k["axes"]) > 1 else k["axes"][0]
     if isinstance(axis, list) and len(case["vals"]) % 3 == 0:
         axis = tuple(axis)
-    if case.get("dtype") in ("float64", "float32") and len(case["vals"]) % 4 == 1:
+    if case["kind"] == 0 and case.get("dtype") in ("float64", "float32") and len(case["vals"]) % 4 == 1:
+        # (direct cases only: the inverse cases difference the result along the padded, hence chunked, outer
+        # dimension, which is refused by design for lazy data, C06)
         # lazy data, chunked along the dimensions that are not accumulated (cumsum along a chunked
         # dimension is outside what map_overlap can do and is handled by the package differently)
         acc = {d for a, cs in c["coords"] if a in k["axes"] for _, d in cs}
